@@ -776,6 +776,11 @@ func (e *Exec) loopHavoc(st *State, spec *LoopSpec, vars []*types.Var, run func(
 	savedStores := e.dryStores
 	e.dryStores = nil
 	savedFrames := e.frames
+	type flen struct{ b, c, r int }
+	var lens []flen
+	for _, f := range savedFrames {
+		lens = append(lens, flen{len(f.breaks), len(f.conts), len(f.rets)})
+	}
 	e.frames = append(e.frames, &ctlFrame{isLoop: true, label: "\x00dry"})
 	func() {
 		defer func() {
@@ -788,6 +793,10 @@ func (e *Exec) loopHavoc(st *State, spec *LoopSpec, vars []*types.Var, run func(
 		run(dry)
 	}()
 	e.frames = savedFrames
+	for i, f := range savedFrames {
+		// states that escaped to enclosing frames during the dry run are discarded with it
+		f.breaks, f.conts, f.rets = f.breaks[:lens[i].b], f.conts[:lens[i].c], f.rets[:lens[i].r]
+	}
 	stores := e.dryStores
 	e.dryStores = savedStores
 	e.dry--
@@ -1034,7 +1043,7 @@ func (e *Exec) cutLoop(st *State, spec *LoopSpec, ord int, label string, vars []
 	e.loopHavoc(st, spec, vars, func(s0 *State) {
 		c := cond(s0)
 		e.addPC(s0, c)
-		f := e.pushFrame("", true)
+		f := e.pushFrame(label, true)
 		out := body(s0)
 		outs := append([]*State{out}, f.conts...)
 		e.popFrame()
